@@ -1,7 +1,7 @@
 import CTV.Der.Sig
 import Mathlib.Tactic.Ring
 import Mathlib.Tactic.Linarith
-/-! Lemmas about the DER fragment of `CTV.DerSig`: the parser accepts exactly the canonical encodings. -/
+/-! Lemmas about the DER fragment of `CTV.Der`: the parser accepts exactly the canonical encodings. -/
 namespace CTV.DerSig
 open CTV
 set_option linter.unusedSimpArgs false
